@@ -119,6 +119,14 @@ def judge(case):
                 bad('to_str-empty', f'to_str={as_str!r}')
         except RecursionError:
             bad('to_str:RecursionError', 'Indentizer.to_str() recurses forever')
+        # lines containing characters that str.splitlines() treats as boundaries (but that are not '\n'):
+        # for the indenter they are ordinary text; list form and string form must still agree
+        for odd in ('a\x0cb', 'a\rb', 'a\x0bb', 'a\x85b', 'a\u2028b', 'x\x1cy'):
+            lst = ind.to_list(list(lines) + [odd])
+            if len(lst) != len(lines) + 1 or ind.to_str(list(lines) + [odd]) != '\n'.join(lst) + '\n':
+                bad('to_str-disagrees-on-exotic-line', f'odd line {odd!r}: to_list={lst!r} '
+                                                      f'to_str={ind.to_str(list(lines) + [odd])!r}')
+                break
         # TextBlock.indent, explicit argument and pre-set indentor, with and without header
         for header, how in itertools.product((None, 'Hdr'), ('arg', 'preset')):
             blk = TextBlock(list(lines), header=header)
